@@ -18,4 +18,14 @@ let () =
       let segs = List.map bytes_of_hex segs in
       let ((ok, s), rem) = do_parse r l rst0 (List.concat segs) in
       let (((ok2, s2), rem2), unfed) = drive_raw r l rst0 [] segs in
-      "W=" ^ obs ok s rem [] ^ " I=" ^ obs ok2 s2 rem2 unfed)
+      "W=" ^ obs ok s rem [] ^ " I=" ^ obs ok2 s2 rem2 unfed);
+  (* end-to-end prediction for C62: what the proxy does with a request head delivered as segments *)
+  reg "rp.e2e" (fun (relaxed :: limit :: segs) ->
+      match parse_segments (relaxed = "1") (n_of_string limit) (List.map bytes_of_hex segs) with
+      | Done (_, _) -> "fwd"
+      | Bad (c, _) -> "rej " ^ string_of_n c
+      | More (_, _) -> "more");
+  (* reply-head limit decision (HttpStateData::processReplyHeader -> grabMimeBlock) for the C62 reply half *)
+  reg "resp.limit" (fun [limit; fls; buf] ->
+      match resp_head_decision (n_of_string limit) (n_of_string fls) (bytes_of_hex buf) with
+      | RHrelay _ -> "relay" | RHtoobig -> "toobig" | RHmore -> "more")
